@@ -101,7 +101,7 @@ def cpair(p):
 
 
 def c_kvs(pairs):
-    return "[" + "; ".join("(%d%%nat, %s)" % (KEY_ID[k], cz(int(v))) for k, v in pairs) + "]"
+    return "[" + "; ".join("(%d, %s)" % (KEY_ID[k], cz(int(v))) for k, v in pairs) + "]"
 
 
 def c_valueset(I, vs):
@@ -286,7 +286,7 @@ def gen_formats(I, ctx):
         for s in specs:
             singles.append(("color_spec_preset", lambda v, s=s: v.__setitem__(slice(17, 20), s)))
         combos = [(a, b, c) for a in prim for b in mat for c in tfs]
-        for s in (combos if not ctx.quick else rng.sample(combos, 12)):
+        for s in (combos if not ctx.quick else rng.sample(combos, 8)):
             singles.append(("color_custom", lambda v, s=s: v.__setitem__(slice(17, 20), s)))
         # single-group perturbations
         for i, (bucket, f) in enumerate(singles):
@@ -405,31 +405,55 @@ def pictureless_ok(I, level):
     return _PICTURELESS[level]
 
 
+VERSION_KEY = "encoder-ignores-level-major_version"
+
+
+def header_only(I, data):
+    """The validator's own parse_info + sequence_header on the stream's first data unit."""
+    state = I.State()
+    vp, exc = None, None
+    try:
+        I.decoder.init_io(state, io.BytesIO(data))
+        # the preamble of decoder.parse_sequence
+        state["_generic_sequence_matcher"] = I.Matcher("sequence_header .* end_of_sequence")
+        state["_num_pictures_in_sequence"] = 0
+        state["_fragment_slices_remaining"] = 0
+        I.decoder.parse_info(state)
+        vp = I.decoder.sequence_header(state)
+        verdict = "accept"
+    except I.decoder.ConformanceError as e:
+        verdict, exc = "conformance:" + type(e).__name__, e
+    except Exception as e:
+        verdict, exc = "crash:" + type(e).__name__, e
+    return verdict, exc, vp, state
+
+
 def decode_one(I, h, level):
     """Serialise the header into a minimal stream and run the real validator.
-    Returns (verdict, video_parameters or None, pcm or None, constrained (key,value) list)."""
+    Returns (verdict, video_parameters or None, pcm or None, constrained (key,value) list, version_conflict).
+    version_conflict: the level pins major_version to values excluding the one autofill chose (the
+    defect recorded under VERSION_KEY); the header is then re-checked with an admitted version forced,
+    the way tests/encoder/test_encoder_sequence_header.py::test_iter_sequence_headers does."""
     data = I.common.serialise([header_stream(I, copy.deepcopy(h))])  # autofill mutates its argument
     if pictureless_ok(I, level):
         verdict, exc, _pics, state = I.common.validate(data)
         vp = state.get("video_parameters")
     else:
-        # validator's own header functions on the same bytes (the level's pattern needs pictures)
-        state = I.State()
-        vp = None
-        try:
-            I.decoder.init_io(state, io.BytesIO(data))
-            I.decoder.parse_info(state)
-            vp = I.decoder.sequence_header(state)
-            verdict = "accept"
-        except I.decoder.ConformanceError as e:
-            verdict, exc = "conformance:" + type(e).__name__, e
-        except Exception as e:
-            verdict, exc = "crash:" + type(e).__name__, e
+        verdict, exc, vp, state = header_only(I, data)
+    conflict = None
+    if (verdict == "conformance:ValueNotAllowedInLevel" and getattr(exc, "key", None) == "major_version"):
+        conflict = "autofilled major_version %s, level %d allows %s" % (exc.value, int(level), exc.allowed_values)
+        allowed = sorted(int(x) for x in exc.allowed_values.iter_values()) if not isinstance(exc.allowed_values, I.ct.AnyValue) else []
+        if allowed:
+            h2 = copy.deepcopy(h)
+            h2["parse_parameters"]["major_version"] = allowed[0]
+            data = I.common.serialise([header_stream(I, h2)])
+            verdict, exc, vp, state = header_only(I, data)
     if verdict != "accept":
         verdict += ": " + str(exc).split("\n")[0][:200]
     lcv = [(k, int(v)) for k, v in state.get("_level_constrained_values", {}).items()
            if k not in ("major_version", "minor_version")]
-    return verdict, (flat(vp) if vp is not None else None), state.get("picture_coding_mode"), lcv
+    return verdict, (flat(vp) if vp is not None else None), state.get("picture_coding_mode"), lcv, conflict
 
 
 def run_spec(args):
@@ -454,8 +478,10 @@ def run_spec(args):
     obs = []
     for i in idxs:
         h = headers[i]
-        verdict, vp, dpcm, lcv = decode_one(I, h, level)
+        verdict, vp, dpcm, lcv, conflict = decode_one(I, h, level)
         res["n"] += 1
+        if conflict and not res.get("version_conflict"):
+            res["version_conflict"] = {"index": i, "what": conflict}
         if verdict != "accept" or vp != target or dpcm != pcm:
             res["fail"].append({"index": i, "verdict": verdict, "decoded": vp, "decoded_pcm": dpcm,
                                 "header": str(h)[:1500]})
@@ -476,12 +502,15 @@ def run_spec(args):
             rank = [int(x) for x in I.esh.rank_allowed_base_video_format_similarity(cf)]
             extra = [(k, int(v)) for k, v in cv.items() if k not in ("level", "profile", "picture_coding_mode")]
             hobs = []
-            for h, vp, dpcm, lcv in obs:
+            nobs = len(obs)
+            pick = sorted(set([0, 1, nobs // 2, nobs - 2, nobs - 1] + [(7 * k + spec.get("near", 0)) % max(1, nobs) for k in range(3)]))
+            for j in [j for j in pick if 0 <= j < nobs]:
+                h, vp, dpcm, lcv = obs[j]
                 hobs.append("(%s, (%s, %s, %s))" % (c_header(h), clist(vp if vp is not None else []),
                                                    cz(-1 if dpcm is None else int(dpcm)), c_kvs(lcv)))
-            res["corr"] = "(mkCase %s %s %s %s %s %s %s [%s])" % (
+            res["corr"] = "(mkCase %s %s %s %s %s %s %s\n  [%s]\n  [%s])" % (
                 cz(int(cf["level"])), cz(int(cf["profile"])), cz(pcm), c_kvs(extra), clist(target),
-                clist(cands), clist(rank), ";\n   ".join(hobs))
+                clist(cands), clist(rank), ";\n   ".join(c_header(h) for h in headers), ";\n   ".join(hobs))
         except Unrepresentable as e:
             res["error"] = "header not representable in the model: %s" % e
     return res
@@ -493,6 +522,12 @@ def report(ctx, res):
         ctx.violation("iter_sequence_headers-raises" if "representable" not in res["error"] else "header-shape",
                       spec, "enumerating the headers failed: " + res["error"])
         return
+    if res.get("version_conflict"):
+        vc = res["version_conflict"]
+        ctx.violation(VERSION_KEY, dict(spec, header_index=vc["index"]),
+                      "the generated sequence header is rejected under its own level: " + vc["what"] +
+                      " (every header of this configuration; re-checked with an admitted version forced)",
+                      observed="ValueNotAllowedInLevel(major_version)", expected="accept")
     for f in res["fail"]:
         inp = dict(spec, header_index=f["index"])
         if f["verdict"] != "accept":
@@ -523,7 +558,7 @@ def run(ctx):
     for i, (s, b) in enumerate(specs):
         if b.startswith("level-") and len(corr_idx) < ncorr + 300:
             corr_idx.add(i)
-    max_headers = ctx.pick(24, 400)
+    max_headers = ctx.pick(16, 400)
     jobs = [(s, max_headers, i in corr_idx) for i, (s, b) in enumerate(specs)]
     t0 = time.time()
     with multiprocessing.Pool(min(14, os.cpu_count() or 2)) as pool:
@@ -544,7 +579,7 @@ def run(ctx):
     ctx.note("%d configurations, %d headers validated, %d configurations with no header (level does not admit the format)" % (len(specs), nheaders, nempty))
     ctx.extra["headers_validated"] = nheaders
     bad = ctx.coq_check_cases("seqhdr", ["Model.SeqHeader", "Corr.C15"], "check15 T15 TBL", [c for c, _ in cases],
-                              ty="case15", shard=40, defs=table_defs(I))
+                              ty="case15", shard=60, defs=table_defs(I))
     if bad:
         ctx.obligation("corr:iter_sequence_headers / decode_header agree with the implementation", False, "corr-shard",
                        "model and implementation differ on: %r" % [cases[i][1] for i in bad[:4]])
@@ -568,8 +603,10 @@ def replay(ctx, data):
     for i, h in enumerate(headers):
         if idx is not None and idx >= 0 and i != idx:
             continue
-        verdict, vp, dpcm, _ = decode_one(I, h, cf["level"])
-        ok = verdict == "accept" and vp == target and dpcm == pcm
+        verdict, vp, dpcm, _, conflict = decode_one(I, h, cf["level"])
+        if conflict:
+            print("header #%d: %s" % (i, conflict))
+        ok = verdict == "accept" and vp == target and dpcm == pcm and not conflict
         if not ok:
             bad += 1
             print("header #%d: verdict=%s decoded=%s pcm=%s (wanted %s, %s)\n%s" % (i, verdict, vp, dpcm, target, pcm, h))
